@@ -320,7 +320,8 @@ def rule_z(repo: Repo, rep: Report) -> int:
         else:
             a_zero = isinstance(m["_A"], ast.Call) and call_name(m["_A"]) in ("torch.zeros_like", "torch.zeros") or (isinstance(m["_A"], ast.Constant) and m["_A"].value in (0, 0.0))
             b_inl = Inliner(fi, allow_loop_defs=True).inline(m["_B"])
-            b_old = unparse(m["_B"]) == unparse(tgt) or unparse(b_inl) == unparse(tgt)
+            t_inl = Inliner(fi, allow_loop_defs=True).inline(tgt)
+            b_old = unparse(m["_B"]) == unparse(tgt) or unparse(b_inl) == unparse(tgt) or unparse(b_inl) == unparse(t_inl)
             a_inl = Inliner(fi, allow_loop_defs=True).inline(m["_A"])
             a_zero = a_zero or (isinstance(a_inl, ast.Call) and call_name(a_inl) in ("torch.zeros_like", "torch.zeros"))
             a_one = isinstance(a_inl, ast.Call) and call_name(a_inl) in ("torch.ones_like", "torch.ones") or (isinstance(a_inl, ast.Constant) and a_inl.value in (1, 1.0))
